@@ -53,4 +53,4 @@ class InMemory(Monitor):
 
 def run(ctx):
     sqlmon.standard_run(ctx, lambda p: [FreeCores(p), InMemory(p)],
-                        cfg={'weights': {'job_complete': 14, 'job_started': 8, 'unschedule': 8, 'cancel_running': 4, 'deactivate_instance': 3, 'create_instance': 3, 'activate_instance': 3, 'jpim_create': 4, 'jpim_schedule': 4, 'restart_driver': 1.5}})
+                        cfg={'weights': {'job_complete': 14, 'job_started': 8, 'unschedule': 8, 'cancel_running': 4, 'deactivate_instance': 3, 'create_instance': 3, 'activate_instance': 3, 'jpim_create': 4, 'jpim_schedule': 4, 'restart_driver': float(__import__('os').environ.get('VERIF_C10_RESTART_WEIGHT', '1.5'))}})
